@@ -74,7 +74,7 @@ def e2e_case(rng):
                 t, attrs = A.random_annotation(rng, 'frag')
                 if t:
                     annots[n] = (t, attrs)
-        r = M.render_fragment(rng, g, list(g.nodes), desc, opts={'leading': False, 'explicit_single': 0.0})
+        r = M.render_fragment(rng, g, list(g.nodes), desc, opts={'leading': False, 'explicit_single': 0.0, 'bracket_p': rng.choice([0.0, 0.5])})
         # hydrogens that need an annotation are written explicitly: C([H;w=0]); they count as atoms of the text
         h_annots = {}
         for n in g:
@@ -252,6 +252,13 @@ def run(case):
                 if aa.nodes[n].get(key, '<missing>') != v:
                     viol.append(V('c14.atom_annotation_lost', f'{s}: copy {n} of atom {tidx} of {fname} in coarse node {k} has {key}={aa.nodes[n].get(key, "<missing>")!r}, written {v!r}'))
                     break
+        # atoms written WITHOUT annotation (plain or in brackets, before or after an annotated one): documented defaults
+        for tidx, n in found.items():
+            if tidx in want or aa.nodes[n].get('element') == 'H' or viol:
+                continue
+            d = aa.nodes[n]
+            if d.get('weight', 1) != 1 or d.get('chiral') is not None:
+                viol.append(V('c14.default_not_applied', f'{s}: copy {n} of atom {tidx} of {fname}, written without annotation, has weight={d.get("weight")!r} chiral={d.get("chiral")!r}'))
         if viol:
             break
     contracts.clear()
